@@ -11,7 +11,7 @@ Import ListNotations.
 Open Scope N_scope.
 
 Definition vmap := list (vid * option vid).
-Record cst := mkCst { c_fv : N; c_fg : N; c_vm : vmap; c_subs : list (gid * graph) }.
+Record cst := mkCst { c_fv : N; c_fg : N; c_vm : vmap; c_subs : list (gid * graph); c_gm : list (gid * gid) }.
 
 (* an input of a copied node: through the value map (a value outside the map would make the code raise; kept as is) *)
 Definition map_in (vm : vmap) (o : option vid) : option vid :=
@@ -27,7 +27,7 @@ Definition call_attr_map (A D : list (str * attr)) : list (str * attr) :=
 Definition fresh_values (vs : list vid) (st : cst) : list vid * cst :=
   fold_left (fun (acc : list vid * cst) v =>
                let '(l, st) := acc in
-               (l ++ [c_fv st], mkCst (c_fv st + 1) (c_fg st) ((v, Some (c_fv st)) :: c_vm st) (c_subs st)))
+               (l ++ [c_fv st], mkCst (c_fv st + 1) (c_fg st) ((v, Some (c_fv st)) :: c_vm st) (c_subs st) (c_gm st)))
             vs ([], st).
 
 Fixpoint clone_node (fuel : nat) (m : model) (AM : list (str * attr)) (n : node) (st : cst) {struct fuel} : node * cst :=
@@ -51,7 +51,8 @@ Fixpoint clone_node (fuel : nat) (m : model) (AM : list (str * attr)) (n : node)
           let outs2 := flat_map (fun o => match map_in (c_vm st3) (Some o) with Some w => [w] | None => [] end) (g_outs gr) in
           let g' := c_fg st3 in
           (g', mkCst (c_fv st3) (g' + 1) (c_vm st3)
-                     (c_subs st3 ++ [(g', mkGraph ins2 (combine ik (map snd (g_inits gr))) ns2 outs2)]))
+                     (c_subs st3 ++ [(g', mkGraph ins2 (combine ik (map snd (g_inits gr))) ns2 outs2)])
+                     ((g, g') :: c_gm st3))
         end in
     let '(attrs', st1) :=
         fold_left (fun (acc : list (str * attr) * cst) (ka : str * attr) =>
@@ -102,8 +103,12 @@ Fixpoint call_results (xs : list vid) (vm : vmap) (outs : list vid) (fv : N) : l
     end
   end.
 
-(* the call node with key k is inlined.  Returns None when k is not a call / the code would raise. *)
-Definition inline_at (fuel : nat) (m : model) (k : vid) (fv fg : N) : option (model * N * N) :=
+(* the call node with key k is inlined.  Returns None when k is not a call / the code would raise.
+   The raw step also returns what a certificate checker needs: the call node, the function, the final value map, the
+   graph map, and the (call output, replacement) pairs. *)
+Record inl_step := mkStep { is_m : model; is_fv : N; is_fg : N; is_call : node; is_fn : func; is_vm : vmap;
+                            is_gm : list (gid * gid); is_pairs : list (vid * vid) }.
+Definition inline_at_raw (fuel : nat) (m : model) (k : vid) (fv fg : N) : option inl_step :=
   match get_node m k with
   | None => None
   | Some c =>
@@ -113,19 +118,21 @@ Definition inline_at (fuel : nat) (m : model) (k : vid) (fv fg : N) : option (mo
       let body := f_body fn in
       let AM := call_attr_map (n_attrs c) (f_defaults fn) in
       if Nat.ltb (length (g_ins body)) (length (n_ins c)) || negb (no_graph_attrs AM) then None else
-      let st0 := mkCst fv fg (bind_formals (g_ins body) (n_ins c)) [] in
+      let st0 := mkCst fv fg (bind_formals (g_ins body) (n_ins c)) [] [] in
       let '(nodes', st1) := clone_nodes fuel m AM (g_nodes body) st0 in
       let '(results, ids, fv') := call_results (g_ins body) (c_vm st1) (g_outs body) (c_fv st1) in
       let pairs := flat_map (fun yr => match snd yr with Some r => [(fst yr, r)] | None => [] end) (combine (n_outs c) results) in
       let m1 := fold_left (fun m yr => replace_uses true (fst yr) (snd yr) m) pairs m in
       let m2 := map_graphs (fun g => set_nodes g (flat_map (fun n => if has_key k n then nodes' ++ ids else [n]) (g_nodes g))) m1 in
-      Some (mkModel (m_main m2) (m_subs m2 ++ c_subs st1) (m_funcs m2), fv', c_fg st1)
+      Some (mkStep (mkModel (m_main m2) (m_subs m2 ++ c_subs st1) (m_funcs m2)) fv' (c_fg st1) c fn (c_vm st1) (c_gm st1) pairs)
     end
   end.
+Definition inline_at (fuel : nat) (m : model) (k : vid) (fv fg : N) : option (model * N * N) :=
+  match inline_at_raw fuel m k fv fg with Some st => Some (is_m st, is_fv st, is_fg st) | None => None end.
 
 (* _inline_calls_in: nodes are visited in order, copies inserted in place of a call are visited next; subgraphs of the
    other nodes are processed recursively.  `pos` = position in the node list of graph r. *)
-Definition is_call (m : model) (n : node) : bool := match find_func (m_funcs m) (n_op n) with Some _ => true | None => false end.
+Definition is_call_node (m : model) (n : node) : bool := match find_func (m_funcs m) (n_op n) with Some _ => true | None => false end.
 
 Fixpoint inline_graph (fuel : nat) (r : gref) (st : model * N * N * list opid) {struct fuel} : model * N * N * list opid :=
   match fuel with
@@ -142,7 +149,7 @@ Fixpoint inline_graph (fuel : nat) (r : gref) (st : model * N * N * list opid) {
            match nth_error (g_nodes g) pos with
            | None => st
            | Some n =>
-             if is_call m n then
+             if is_call_node m n then
                match inline_at f m (node_key n) fv fg with
                | Some (m', fv', fg') => loop steps' pos (m', fv', fg', n_op n :: inld)
                | None => loop steps' (S pos) st
